@@ -377,6 +377,37 @@ fn run_cursor<C: AnsCombo>(segs: &[Vec<&str>], decoder: bool) -> String {
     outs.join(" | ")
 }
 
+/// `ansspec W S | enc B P cum p | … [| expect words]`: encode onto an empty coder and export;
+/// the Lean side answers with the *reference specification* `RansSpec.words` (C06).
+fn run_spec<C: AnsCombo>(segs: &[Vec<&str>]) -> String {
+    let mut coder: AnsCoder<C::W, C::S> = AnsCoder::new();
+    let mut expect: Option<Vec<u128>> = None;
+    for seg in &segs[1..] {
+        match seg.as_slice() {
+            ["enc", b, p, cum, pr] => {
+                let (b, p, cum, pr) = match (parse_hex(b), parse_hex(p), parse_hex(cum), parse_hex(pr)) {
+                    (Some(b), Some(p), Some(c), Some(r)) => (b as u32, p as u32, c, r),
+                    _ => return "bad-op".into(),
+                };
+                match C::enc(&mut coder, b, p, Some((cum, pr))) {
+                    Some(o) if o == "ok" => {}
+                    Some(o) => return o,
+                    None => return "unsupported".into(),
+                }
+            }
+            ["expect", ws] => expect = parse_list(ws),
+            _ => return "bad-op".into(),
+        }
+    }
+    let out: Vec<u128> = coder.into_compressed().unwrap().iter().map(|&w| to_u128(w)).collect();
+    let verdict = match &expect {
+        None => "-",
+        Some(e) if *e == out => "match",
+        Some(_) => "MISMATCH",
+    };
+    format!("{} {}", show_list(out), verdict)
+}
+
 pub fn run(segs: &[Vec<&str>]) -> String {
     let head = &segs[0];
     if head.len() < 3 {
@@ -393,6 +424,7 @@ pub fn run(segs: &[Vec<&str>]) -> String {
                 "ans" if head.len() == 3 && segs.len() >= 2 => run_hist::<$C>(segs),
                 "ansc" if head.len() == 4 => run_cursor::<$C>(segs, false),
                 "ansd" if head.len() == 3 && segs.len() >= 2 => run_cursor::<$C>(segs, true),
+                "ansspec" if head.len() == 3 => run_spec::<$C>(segs),
                 _ => "bad-op".into(),
             }
         };
@@ -635,8 +667,63 @@ fn gen_seekdec_line(rng: &mut Rng, w: u32, s: u32, bps: &[(u32, Vec<u32>)]) -> S
     line
 }
 
+fn gen_spec_line(rng: &mut Rng, w: u32, s: u32, bps: &[(u32, Vec<u32>)]) -> String {
+    let mut line = format!("ansspec {:x} {:x}", w, s);
+    let n = rng.next() % 40;
+    let mut models: Vec<(u32, u32, Vec<u128>)> = Vec::new();
+    for _ in 0..3 {
+        let (b, p) = pick_bp(rng, bps);
+        models.push((b, p, gen_cdf(rng, p)));
+    }
+    for _ in 0..n {
+        let (b, p, cdf) = rng.pick(&models).clone();
+        if rng.chance(1, 5) {
+            let (cum, pr) = gen_cp(rng, p);
+            line.push_str(&format!(" | enc {:x} {:x} {:x} {:x}", b, p, cum, pr));
+        } else {
+            let i = rng.below(cdf.len() as u128 - 1) as usize;
+            line.push_str(&format!(" | enc {:x} {:x} {:x} {:x}", b, p, cdf[i], cdf[i + 1] - cdf[i]));
+        }
+    }
+    line
+}
+
+/// The byte-exact examples of the project's own documentation (README-rust.md, src/lib.rs):
+/// the documented models are built with the crate, each symbol is turned into its numeric
+/// `(cum, p)` by the crate's model, and the documented words are attached as `expect`.
+pub fn doc_vectors() -> Vec<String> {
+    use constriction::stream::model::{DefaultLeakyQuantizer, EncoderModel};
+    use probability::distribution::Gaussian;
+    let mut out = Vec::new();
+    let symbols = [23i32, -15, 78, 43, -69];
+    let means = [35.2, -1.7, 30.1, 71.2, -75.1];
+    let stds = [10.1, 25.3, 23.8, 35.4, 3.9];
+    let quantizer = DefaultLeakyQuantizer::new(-100..=100);
+    let mut line = String::from("ansspec 20 40");
+    // encode_symbols_reverse: last symbol first
+    for i in (0..5).rev() {
+        let m = quantizer.quantize(Gaussian::new(means[i], stds[i]));
+        let (c, p) = EncoderModel::<24>::left_cumulative_and_probability(&m, symbols[i]).unwrap();
+        line.push_str(&format!(" | enc 20 18 {:x} {:x}", c, p.get()));
+    }
+    line.push_str(" | expect 421c7ec3,b8ed1");
+    out.push(line);
+    // src/stream/mod.rs: `[0x2C63_D22E, 0x0000_0377]` decodes to -3, 12, 19, 28, 41 with Gaussian(10 i, 10)
+    let syms2 = [-3i32, 12, 19, 28, 41];
+    let mut line = String::from("ansspec 20 40");
+    for i in (0..5).rev() {
+        let m = quantizer.quantize(Gaussian::new((i * 10) as f64, 10.0));
+        let (c, p) = EncoderModel::<24>::left_cumulative_and_probability(&m, syms2[i]).unwrap();
+        line.push_str(&format!(" | enc 20 18 {:x} {:x}", c, p.get()));
+    }
+    line.push_str(" | expect 2c63d22e,377");
+    out.push(line);
+    out
+}
+
 pub fn gen(rng: &mut Rng, tier: &str, out: &mut Vec<String>) {
     let n_per_combo = if tier == "thorough" { 6000 } else { 350 };
+    out.extend(doc_vectors());
     for (w, s, bps) in combos() {
         for _ in 0..n_per_combo {
             out.push(gen_history(rng, w, s, &bps, 24));
@@ -644,6 +731,7 @@ pub fn gen(rng: &mut Rng, tier: &str, out: &mut Vec<String>) {
         for _ in 0..n_per_combo / 4 {
             out.push(gen_cursor_line(rng, w, s, &bps));
             out.push(gen_seekdec_line(rng, w, s, &bps));
+            out.push(gen_spec_line(rng, w, s, &bps));
         }
     }
 }
